@@ -1126,7 +1126,7 @@ func init() {
 		}
 		core.RunLeg(c, core.Leg[c13Case]{
 			Name: "O", Kind: "oracle",
-			Rule: "every 4th case a linear family (loop bodies of alternations/lazy optionals/counted loops/backrefs/conditionals/lookarounds/atomic groups over inputs of 5-125 repeated units), every 4th a tower of 2-11 nested quantified groups, the rest random ASTs of depth 3-6 (literals, classes, anchors, concatenation, 2-6-way alternation, greedy/lazy * + ? {m,n} {m,} {m}, captures, named captures, four lookarounds, atomic groups, backrefs, conditionals) under one of 10 option sets; inputs: two samples drawn from the pattern (sometimes padded), one random text, sometimes a long random text; limits: 0,64,100,257,1000,default plus 12 random values of 1..63 (thorough: all of 0..64) plus alloc+{-4,-1,0,1,4}, 4tc+{…}, 2alloc+{…} where alloc=max(64,8·TrackCount), and -1. Per (limit,input,call∈{FindStringMatch+3×FindNextMatch, MatchString}) on a fresh Regexp: no panic; result identical to the unlimited result or exactly ErrBacktrackingStackLimit (matches returned before the error identical too); VerifMaxTrackCap ≤ L; success at L ⇒ success at every larger limit; then one Regexp reused over all inputs forwards and backwards answers like the fresh ones (usable after an error). non-trivial = some limit ≥ 4·TrackCount fails (run cut off after its first storage check) and some limit succeeds; distinct by (pattern,options,inputs)",
+			Rule:   "every 4th case a linear family (loop bodies of alternations/lazy optionals/counted loops/backrefs/conditionals/lookarounds/atomic groups over inputs of 5-125 repeated units), every 4th a tower of 2-11 nested quantified groups, the rest random ASTs of depth 3-6 (literals, classes, anchors, concatenation, 2-6-way alternation, greedy/lazy * + ? {m,n} {m,} {m}, captures, named captures, four lookarounds, atomic groups, backrefs, conditionals) under one of 10 option sets; inputs: two samples drawn from the pattern (sometimes padded), one random text, sometimes a long random text; limits: 0,64,100,257,1000,default plus 12 random values of 1..63 (thorough: all of 0..64) plus alloc+{-4,-1,0,1,4}, 4tc+{…}, 2alloc+{…} where alloc=max(64,8·TrackCount), and -1. Per (limit,input,call∈{FindStringMatch+3×FindNextMatch, MatchString}) on a fresh Regexp: no panic; result identical to the unlimited result or exactly ErrBacktrackingStackLimit (matches returned before the error identical too); VerifMaxTrackCap ≤ L; success at L ⇒ success at every larger limit; then one Regexp reused over all inputs forwards and backwards answers like the fresh ones (usable after an error). non-trivial = some limit ≥ 4·TrackCount fails (run cut off after its first storage check) and some limit succeeds; distinct by (pattern,options,inputs)",
 			Corpus: corpus, N: c.N(300, 4500), Gen: c13GenCase(c), Check: c13CheckO, Batch: 50,
 		})
 		core.RunLeg(c, core.Leg[c13ACase]{
@@ -1141,11 +1141,11 @@ func init() {
 		})
 		core.RunLeg(c, core.Leg[c13PCase]{
 			Name: "P", Kind: "correspondence",
-			Rule: "random patterns (as leg O, larger) under 10 option sets; for the main and the bool-only program: the Lean decoder with the regenerated opcodeSize table splits Code.Codes into the same number of instructions as syntax.opcodeSize; the regenerated opcodeBacktracks table counts Code.TrackCount instructions (bool-only program: at most); every Nullmark is directly followed by a Goto; and the potential Σ weight(op) computed in Lean from the regenerated case fingerprints is ≤ 4·TrackCount (hypothesis `need ≥ Φ(0)` of track_inv for this program). non-trivial = more than one backtracking instruction; distinct by (pattern,options)",
+			Rule:   "random patterns (as leg O, larger) under 10 option sets; for the main and the bool-only program: the Lean decoder with the regenerated opcodeSize table splits Code.Codes into the same number of instructions as syntax.opcodeSize; the regenerated opcodeBacktracks table counts Code.TrackCount instructions (bool-only program: at most); every Nullmark is directly followed by a Goto; and the potential Σ weight(op) computed in Lean from the regenerated case fingerprints is ≤ 4·TrackCount (hypothesis `need ≥ Φ(0)` of track_inv for this program). non-trivial = more than one backtracking instruction; distinct by (pattern,options)",
 			Corpus: []c13PCase{{Pattern: `(?:ab?)*c`}, {Pattern: `(?<n>a)*?(?(n)b|c){2,5}(?>x+)(?<=y)`, Opts: int(regexp2.RightToLeft)}},
-			N: c.N(4000, 200000), Gen: c13GenP, Check: c13CheckP, Batch: 1000,
+			N:      c.N(4000, 200000), Gen: c13GenP, Check: c13CheckP, Batch: 1000,
 		})
 		vmLeg(c, c.N(500, 8000), vmSizes{k: 24, maxSteps: 4000, maxText: 12, extra: 2}) // leg W: interpreter model vs executeDefault (vm.go)
-		wrLeg(c, 800, 40000) // the writer model behind QuickCodes / TrackCount (leg Wr, see writer.go)
+		wrLeg(c, 800, 40000)                                                            // the writer model behind QuickCodes / TrackCount (leg Wr, see writer.go)
 	})
 }
